@@ -277,6 +277,39 @@ fn gen_macro_case(t: &mut Tape) -> MacroCase {
         }
         expr_arg = true;
     }
+    // v5: inner instructions that SEVERAL rules of different widths accept (`ldwq {x: u16}` beside `ldwq {x: u8}` and
+    // `ldwq {x: u4}`, declared in any order): with literal arguments the inlined program has one layout, in which every
+    // line takes the smallest encoding that accepts its value; a position-dependent instruction behind it shows the size
+    if crate::engine::gen_version() >= 5 && tail.0.is_empty() && t.chance(1, 5) {
+        let mut variants = vec!["    ldwq {x: u4} => 0x3 @ x\n", "    ldwq {x: u8} => 0x01 @ x\n", "    ldwq {x: u16} => 0x02 @ x\n"];
+        if t.chance(1, 3) {
+            variants.remove(t.below(3));
+        }
+        for i in (1..variants.len()).rev() {
+            let j = t.below(i + 1);
+            variants.swap(i, j);
+        }
+        let base = format!("#ruledef widq\n{{\n{}    endq => 0xee @ $`8\n", variants.concat());
+        let rules = format!("{}    pairq {{x}} => asm\n    {{\n        ldwq {{x}}\n        endq\n    }}\n    pair2q {{x}}, {{y}} => asm\n    {{\n        pairq {{x}}\n        ldwq {{y}}\n        endq\n    }}\n}}\n", base);
+        let plain_rules = format!("{}}}\n", base);
+        let vals = ["0", "5", "15", "16", "200", "255", "256", "0x12", "0x1234", "65535", "0x0005", "3 + 4", "65536"];
+        let n = t.urange(1, 3);
+        let (mut a, mut b) = (String::new(), String::new());
+        for _ in 0..n {
+            if t.chance(1, 3) {
+                let (x, y) = (*t.pick(&vals), *t.pick(&vals));
+                a.push_str(&format!("pair2q {}, {}\n", x, y));
+                b.push_str(&format!("ldwq {}\nendq\nldwq {}\nendq\n", x, y));
+            } else {
+                let x = *t.pick(&vals);
+                a.push_str(&format!("pairq {}\n", x));
+                b.push_str(&format!("ldwq {}\nendq\n", x));
+            }
+        }
+        tail.0 = format!("{}{}", rules, a);
+        tail.1 = format!("{}{}", plain_rules, b);
+        expr_arg = true;
+    }
     MacroCase { isa, macros, calls, plain, globals, forward_global: true, local_label_used, expr_arg, tail }
 }
 
@@ -358,7 +391,7 @@ impl Property for C17 {
          substitution exactly as written, block labels renamed apart). Oracle: both assemble (default budget) to identical bits, or both fail. PART F (a third): 1-2 user functions \
          `#fn f(a, b) => body` with generated bodies over their parameters and global constants; `#d f(e1, e2)`64` must equal `#d (body[a:=(e1), b:=(e2)])`64` and the reference evaluator. \
          PART P (one in seven): a function whose body reads `$`, a later label or a non-static constant, called with literal arguments from instruction operands behind a short/long instruction family (so the layout moves after the first pass); the program must equal the one with the body substituted by hand. PART R (the rest): recursion through functions (self, mutual), asm-block rules and nested calls at depths 3..10 (must succeed with the right value) and 100..20000 (must be an error, \
-         not a crash - a dying worker process is a violation). (v4, part M) tails with string literals that SPELL a placeholder or hold a lone brace (`say3q \"{n}\", 3`; `lit3q {n} => asm { str3q \"}\", {n} }`; a comment with a brace inside a multi-line block): strings and comments are text, not structure. Non-trivial = (M) a block-local label is referenced or an argument is an expression of >= 2 tokens; (F) body depth >= 2; (R) depth >= 100."
+         not a crash - a dying worker process is a violation). (v5, part M) tails over a family of rules of different widths for one text (`ldwq {x: u4}` / `{x: u8}` / `{x: u16}` declared in any order, called through one and two levels of asm blocks with literal arguments, each followed by a position-dependent instruction): the macro must pick the smallest accepting encoding exactly as the inlined lines do. (v4, part M) tails with string literals that SPELL a placeholder or hold a lone brace (`say3q \"{n}\", 3`; `lit3q {n} => asm { str3q \"}\", {n} }`; a comment with a brace inside a multi-line block): strings and comments are text, not structure. Non-trivial = (M) a block-local label is referenced or an argument is an expression of >= 2 tokens; (F) body depth >= 2; (R) depth >= 100."
             .to_string()
     }
     fn assumptions(&self) -> Vec<String> {
@@ -375,12 +408,36 @@ impl Property for C17 {
         500
     }
     fn enumerated(&self, _tier: Tier) -> u64 {
-        1
+        3
     }
     /// directed probe: a macro whose inner instruction carries an assert on a forward global label.
     /// The block has no static size, the label's first guess is therefore 0, the assert fails on the
     /// guess, the block never resolves and the guess never improves.
-    fn run_enumerated(&self, _index: u64, ctx: &mut CaseCtx) -> Verdict {
+    fn run_enumerated(&self, index: u64, ctx: &mut CaseCtx) -> Verdict {
+        if index >= 1 {
+            // round 11, directed probes 1 and 2: a LOCAL of a rule body (`y = 0x20 + x`) handed by value to a nested
+            // asm-block rule that pastes its argument into a block of its own. In place of the call stands `emithq 0x22`.
+            // (1: the nested rule has a local of the same name; 2: it has none)
+            let inner = if index == 1 { "    innerq {x} =>\n    {\n        y = 0x10 + x\n        asm { emithq {x} }\n    }\n" } else { "    innerq {x} => asm { emithq {x} }\n" };
+            let base = "#ruledef hygq\n{\n    emithq {x: i8} => x\n";
+            let a = format!("{}{}    outerq {{x}} =>\n    {{\n        y = 0x20 + x\n        asm {{ innerq {{y}} }}\n    }}\n}}\nouterq 2\n", base, inner);
+            let b = format!("{}}}\nemithq 0x20 + 2\n", base);
+            ctx.set_hash_str(&a);
+            ctx.nontrivial = true;
+            ctx.label("probe:rule-local-through-two-asm-levels");
+            ctx.want_render = true;
+            ctx.render(|| json!({"macro_program": a, "inlined_program": b}));
+            let oa = sut::assemble_src(&a, &Opts::default());
+            let ob = sut::assemble_src(&b, &Opts::default());
+            ctx.evals += 2;
+            return match (&oa, &ob) {
+                (AsmOutcome::Ok(x), AsmOutcome::Ok(y)) if x.bits == y.bits => Verdict::Pass,
+                (AsmOutcome::Ok(_), AsmOutcome::Ok(_)) => Verdict::fail("rule-local-through-two-asm-levels|bits-differ", format!("macro program: {} ; hand-inlined program: {}", oa.brief(), ob.brief())),
+                (AsmOutcome::Err(_), AsmOutcome::Ok(_)) => Verdict::fail("rule-local-through-two-asm-levels|macro-rejected-inlined-accepted", format!("macro program: {} ; hand-inlined program: {}", oa.brief(), ob.brief())),
+                (_, AsmOutcome::Ok(_)) => Verdict::fail("rule-local-through-two-asm-levels|other", format!("macro program: {} ; hand-inlined program: {}", oa.brief(), ob.brief())),
+                _ => Verdict::fail("probe-broken", format!("the inlined probe does not assemble: {}", ob.brief())),
+            };
+        }
         let rules = "    ld [{p0: u8}] => { assert(p0 != 0), 0x9 @ p0 @ 0x0 }\n";
         let a = format!("#ruledef\n{{\n{}    mac => asm {{ ld [gb] }}\n}}\nmac\ngb:\n", rules);
         let b = format!("#ruledef\n{{\n{}}}\nld [gb]\ngb:\n", rules);
